@@ -15,10 +15,8 @@ from math import lcm
 import numpy as np
 import jax
 
-jax.config.update("jax_enable_x64", True)
+from . import replay  # noqa: E402  (sets sys.path to the repo under test, imports the library, THEN enables x64)
 from jax import numpy as jnp  # noqa: E402
-
-from . import replay  # noqa: E402  (sets sys.path to the repo under test)
 from gaussian_toolbox import conditional, factor, measure, pdf  # noqa: E402
 
 
